@@ -112,10 +112,43 @@ def _install():
 
     cmc.CouplingSimulation.coupling_states_for_a_slice = coupling_states_for_a_slice
 
+    o_cs = cmc.CouplingSimulation.coupling_state
+
+    def coupling_state(self, increment):
+        st = _st()
+        if st is not None and "coupling_calls" in st:
+            st["coupling_calls"].append(int(increment))
+        return o_cs(self, increment)
+
+    cmc.CouplingSimulation.coupling_state = coupling_state
+
+    def wrap_chain(cls_):
+        o_sim = cls_.simulate_markov_chain
+
+        def simulate_markov_chain(self):
+            chain = o_sim(self)
+            st = _st()
+            if st is not None and "last_chain" in st:
+                try:
+                    st["last_chain"] = [int(i) for sl in chain.states_increments for i in sl]
+                except Exception:
+                    st["last_chain"] = None
+            return chain
+
+        cls_.simulate_markov_chain = simulate_markov_chain
+
+    wrap_chain(mc.MCSimulationFixedTimes)
+    wrap_chain(mc.MCSimulationWithJumpTimes)
     o_pair = cmc.CouplingMarkovChain.simulate_one_path_with_coupling
 
     def simulate_one_path_with_coupling(self):
+        st0 = _st()
+        n0 = len(st0["coupling_calls"]) if st0 is not None and "coupling_calls" in st0 else 0
+        if st0 is not None and "last_chain" in st0:
+            st0["last_chain"] = None
         path = o_pair(self)
+        if st0 is not None and "coupling_calls" in st0 and st0.get("last_chain") is not None:
+            st0["per_jump"].append((self.level, list(st0["last_chain"]), list(st0["coupling_calls"][n0:])))
         st = _st()
         if st is not None and "pairs" in st:
             try:
@@ -343,7 +376,7 @@ def execute(wd, sc):
             ctx.nprs.set_state(saved)
             ctx.fp_np = __import__("simkit.world", fromlist=["fp_np"]).fp_np(ctx.nprs)
 
-    wd.c03 = {"transitions": [], "slices": [], "hook": hook, "pairs": []}
+    wd.c03 = {"transitions": [], "slices": [], "hook": hook, "pairs": [], "coupling_calls": [], "last_chain": None, "per_jump": []}
     if sc["variant"] == "sde":
         wd.record_values = True  # the normal variates of the level-0 paths are part of the reference below
     try:
@@ -475,6 +508,17 @@ def execute(wd, sc):
                     {"level": lvl, "sigma_previous": s_c, "sigma_level": s_f, "fine_increments": inc_f.tolist()[:4],
                      "coarse_increments": inc_c.tolist()[:4]})
                 break
+    # ---- a (paths): every fine jump of a simulated pair gets its own coupling decision, in order (the coarse path is
+    # the previous level's chain only if the jumps are coupled one by one: a decision shared by several jumps to the same
+    # state keeps every marginal probability and still changes the law of the coarse path)
+    for (lvl, fine_incs, coupled_incs) in wd.c03.get("per_jump", []):
+        wd.probes["c03.per_jump_coupling_checked"] += 1
+        if len(fine_incs) >= 2 and len(set(fine_incs)) < len(fine_incs):
+            wd.probes["c03.path_with_repeated_fine_state"] += 1
+        if fine_incs != coupled_incs:
+            add(f"C03.a|the fine jumps of a simulated pair are not coupled one by one, in order|{'fewer-coupling-decisions-than-jumps' if len(coupled_incs) < len(fine_incs) else 'other'}|method={sc['process']['method']}",
+                {"level": lvl, "fine_jumps": fine_incs[:10], "coupling_decisions": coupled_incs[:10]})
+            break
     # ---- a (paths): the coarse jump component of a simulated pair is piecewise constant between the fine jumps - it may
     # move only at a time at which the fine component moves (also on the points a maximum time step inserts)
     for (lvl, ptimes, pj, sim) in wd.c03.get("pairs", []):
